@@ -329,6 +329,39 @@ def gen_deterministic_ps(rng):
     return {"wires": [0, 1, 2], "stmts": stmts, "n_mcm": 1}, b
 
 
+def add_broadcast(rng, prog, B=None):
+    """Copy of ``prog`` in which one or two gate parameters are batches of size B (lists); None if no parametrised gate."""
+    import copy
+
+    B = B or int(rng.integers(2, 4))
+    new = copy.deepcopy(prog)
+    slots = []
+
+    def walk(stmts, inside):
+        for s in stmts:
+            if s[0] == "g" and s[2]:
+                slots.append((s, inside))
+            elif s[0] == "c":
+                walk(s[2], True)
+                if s[3]:
+                    walk(s[3], True)
+
+    walk(new["stmts"], False)
+    if rng.random() < 0.5:
+        slots = [x for x in slots if not x[1]] or slots
+    if not slots:
+        return None, 0, False
+    in_cond = False
+    for k in rng.choice(len(slots), size=min(len(slots), int(rng.integers(1, 3))), replace=False):
+        s, inside = slots[int(k)]
+        j = int(rng.integers(len(s[2])))
+        if isinstance(s[2][j], list):
+            continue
+        s[2][j] = [float(s[2][j] + d) for d in rng.uniform(-1.5, 1.5, size=B)]
+        in_cond = in_cond or inside
+    return new, B, in_cond
+
+
 def has_nested(stmts, depth=0):
     for s in stmts:
         if s[0] == "c":
